@@ -156,7 +156,12 @@ def handle (d : DS) (line : String) : DS × String :=
       let (s', e) := runCmd d.s act
       ({ d with s := s' }, render mm s' e)
     if line = "START" then go (start d.fl mm uenv)
-    else if line.startsWith "SEND " then go (send d.fl mm uenv (.user (dropPrefix line 5)))
+    else if line.startsWith "SEND " then
+      -- `can(event)` asked just before delivery (pure: it neither takes nor returns a state)
+      let ev : Ev := .user (dropPrefix line 5)
+      let c := can mm d.s.cfg (uenv.genv d.s.ctx ev.type) ev
+      let (d', o) := go (send d.fl mm uenv ev)
+      (d', (o.dropRight 1) ++ ",\"can\":" ++ (if c then "true" else "false") ++ "}")
     else if line.startsWith "AFTER " then go (send d.fl mm uenv (.after (dropPrefix line 6)))
     else if line.startsWith "DONE " then
       match (dropPrefix line 5).splitOn " " with
